@@ -255,7 +255,16 @@ func (c *genCtx) gen(depth int, nn, incap bool) *Expr {
 			switch c.draw(0, 4, "parskind") {
 			case 0:
 				e.S = "R" // the rewinding kind (PTokR)
-				switch c.draw(0, 2, "rewindshape") {
+				switch c.draw(0, 3, "rewindshape") {
+				case 3:
+					// tried again and again next to an alternative that takes what it refuses: ( @R | @Ident )+ -- an
+					// attempt that refused leaves nothing behind for the attempt that accepts
+					g := Group(rapid.SampledFrom([]string{"+", "+", "*"}).Draw(c.t, "rewindrep"), Alt(e, Cap(Ref("Ident"))))
+					if nn {
+						g.Mod = "+"
+					}
+					g.Style = c.draw(0, 5, "gstyle")
+					return g
 				case 1:
 					// a consumed token, an optional rewinding production, then a production that reads the lexer with
 					// Peek/Next: after a rewind over pending elided tokens it must still see the next real token
@@ -578,7 +587,16 @@ func (c *genCtx) trap(depth int, nn bool) *Expr {
 	if c.draw(0, 11, "plusoverchoice") == 0 {
 		kind = 13
 	}
+	if c.o.Parseables && c.draw(0, 11, "refusetrap") == 0 {
+		kind = 14
+	}
 	switch kind {
+	case 14:
+		// a user-implemented production that refuses some tokens, tried again and again next to an alternative that
+		// takes what it refuses: ( @R | @Ident )+ -- what an attempt that refused did to its value is gone with it
+		g := Group("+", Alt(&Expr{Kind: KPars, S: "R", Prod: -1, Uni: -1}, Cap(Ref("Ident"))))
+		g.Style = c.draw(0, 5, "gstyle")
+		return g
 	case 13:
 		// a + group over a choice that commits at small lookahead, with a way around the group that takes the same
 		// tokens: ( ( bad | base )+ | base )  or  ( ( bad | base )+ )? base -- a commit made inside the first, mandatory
